@@ -443,8 +443,7 @@ def r1(db, rep, hb, disp, pre, cls):
     for a in cls.arms:
         if a["wild"]:
             continue
-        sets_delay = any(x.get("k") == "Assign" and any(y.get("k") == "Path" and (y["res"].get("ctor_of", "") or "").startswith(
-            "translator::mips::TranslateBranchDelay::") for y in walk(x["rhs"])) for x in walk(a["arm"].body))
+        sets_delay = any(x.get("k") == "Assign" and any(y.get("k") == "Path" and "::TranslateBranchDelay::" in (y["res"].get("ctor_of", "") or "") for y in walk(x["rhs"])) for x in walk(a["arm"].body))
         if sets_delay:
             cls_ids |= {idn(i) for i in a["ids"]}
     disp_ids = {idn(i) for i in disp.by_id()}
